@@ -36,7 +36,7 @@ def gen_text(rng, enc=None, nonempty=True):
         # rarely a long text (9-70 KB encoded): anything that works on the data in blocks must
         # not lose a line ending across a block boundary
         nl = rng.choice(['\n', '\r\n'])
-        t = ''.join('line %d of a long text%s' % (i, nl) for i in range(rng.choice([400, 1300, 2600])))
+        t = ''.join('line %d of a long text%s%s' % (i, '.' * rng.randrange(0, 9), nl) for i in range(rng.choice([400, 1300, 2600])))
         if enc is None or encodable(t, enc):
             return t
     for _ in range(20):
@@ -64,7 +64,7 @@ def gen_ascii_text(rng):
 def gen_bytes(rng):
     if rng.random() < 0.004:
         nl = rng.choice([b'\n', b'\r\n', b'\n\x00', b'\r\x00\n\x00'])
-        return b''.join(b'+%d' % i + nl for i in range(rng.choice([900, 2500, 9000])))
+        return b''.join(b'+%d%s' % (i, b'.' * rng.randrange(0, 9)) + nl for i in range(rng.choice([900, 2500, 9000])))
     n = rng.choice([1, 1, 2, 3, 5, 8])
     parts = []
     for _ in range(n):
